@@ -8,6 +8,7 @@ sys.path.insert(0, os.path.dirname(os.path.abspath(__file__)))
 import vlib
 
 ENGINE = {"C01", "C02", "C03", "C04", "C05", "C09"}
+RESOLVE = {"C06", "C07", "C08", "C10"}
 
 
 def setup():
@@ -36,6 +37,9 @@ def main():
     if a.prop in ENGINE:
         import check_engine
         return check_engine.run_check(a.prop, a.tier, a.replay)
+    if a.prop in RESOLVE:
+        import check_resolve
+        return check_resolve.run_check(a.prop, a.tier, a.replay)
     raise vlib.Infra("no check registered for %r" % a.prop)
 
 
